@@ -34,6 +34,7 @@ def Z(fn, **kw):
 
 def L2(fn, p=1, d=0, **kw):
     kw.setdefault("time_limit_s", 600)
+    kw.setdefault("solver", "cvc5int,z3")  # time-order queries: 10-40x faster than bit-blasting (measured on the hedge scenarios)
     return Z(fn, preempt=p, delays=d, race=True, **kw)
 
 
@@ -81,6 +82,7 @@ PROPS["C05"] = {
         J("ratelimiter", "ZZ_H05b_BurstyStep", solver=INT, native=True, params={"bursty_cfgs": 5},
           note="inductive step from arbitrary valid state; (M,P) in {(1,1s),(2,1s),(2,50ms),(4,1s),(8,7ns)}; deficit>=-2^20; k<=1024; t<2^47"),
         J("ratelimiter", "ZZ_H05c_KAtOnce", solver=INT, native=True, params={"bursty_cfgs": 3, "smooth_cfgs": 3}, note="k<=4 at once vs k singles at the same instant"),
+        J("ratelimiter", "ZZ_H05g_PublicAPI", solver=INT, native=True, note="every public permit method (Try/Reserve/TryReserve, 1 or k<=8 permits, symbolic max wait/instant/state) vs the kernel on a twin"),
         L2("ZZ_S05f_BlockingAcquire", 1, solver=INT, labels=["limiter:"], note="blocking AcquirePermit(ctx) on a smooth / bursty limiter (1 permit per 1000 ns), symbolic request instants and cancellation; P=1"),
     ],
     "assumptions": ["requested permits k >= 1", "stopwatch non-decreasing", "blocking acquire: interval/period 1 us, one permit per slot/period", "interval/period taken from the stated grid; bursty maxExecutions is a power of two (division of a symbolic deficit by 3, 5, 10 or 100 is not decided by any installed solver within 60 s)"],
@@ -92,13 +94,14 @@ PROPS["C03"] = {
         J("circuitbreaker", "ZZ_H03a_RingStep", solver="z3", native=True, params={"max_ring": 6}, note="inductive ring step, capacity 1..6, arbitrary bits/head/occupancy under Inv_c; real bitset package interpreted"),
         J("circuitbreaker", "ZZ_H03c_TimedStep", solver=INT, native=True, params={"bucket_base": 1, "bucket_cfgs": 2}, note="inductive time-bucket step; bucketNanos in {7,100}; head on grid {0,10,10^6}+ring position; arbitrary counts<2^16; t symbolic <2^47"),
         J("circuitbreaker", "ZZ_H03b_RateLemma", solver=FPS, native=True, params={"max_n": 8}, note="failureRate/successRate of both stats types = rounded percentage for all 0<=x<=n<=8 (FP division of symbolic ints)"),
-        J("circuitbreaker", "ZZ_H03g_History", solver=INT, native=True, params={"ops": 3}, time_limit_s=900, note="bounded history (3 ops) through the public API vs reference machine; 7 configurations (count, ratio, success-threshold, period-count, period-rate); symbolic delay/instants (count-based), boundary grid (time-based)"),
+        J("circuitbreaker", "ZZ_H03g_History", solver=INT, native=True, params={"ops": 3, "record_ops": 2}, time_limit_s=900, note="bounded history (3 ops incl. RecordResult/RecordError) through the public API vs reference machine; 7 configurations (count, ratio, success-threshold, period-count, period-rate); symbolic delay/instants (count-based), boundary grid (time-based)"),
     ],
     "thorough": [
         J("circuitbreaker", "ZZ_H03a_RingStep", solver="z3", native=True, params={"max_ring": 12}, time_limit_s=1500, note="inductive ring step, capacity 1..12"),
         J("circuitbreaker", "ZZ_H03c_TimedStep", solver=INT, native=True, time_limit_s=1500, note="inductive time-bucket step; bucketNanos in {1,7,100,10^8,6*10^9}"),
         J("circuitbreaker", "ZZ_H03b_RateLemma", solver=FPS, native=True, params={"max_n": 32}, time_limit_s=3000, qtimeout_s=300, note="rate lemma for n<=32"),
-        J("circuitbreaker", "ZZ_H03g_History", solver=INT, native=True, params={"ops": 4}, time_limit_s=3000, note="bounded history (4 ops) vs reference machine; 7 configurations (count, ratio, success-threshold, period-count, period-rate)"),
+        J("circuitbreaker", "ZZ_H03g_History", solver=INT, native=True, params={"ops": 3, "record_ops": 2}, time_limit_s=3000, note="bounded history (3 ops) vs reference machine; all 7 configurations"),
+        J("circuitbreaker", "ZZ_H03g_History", solver=INT, native=True, params={"ops": 4, "cfgs": 4}, time_limit_s=5000, note="bounded history (4 ops) vs reference machine; the 4 count/ratio/success-threshold configurations"),
     ],
     "assumptions": ["clock non-decreasing", "thresholding period divisible by 10", "ring capacity <= 12 (one bitset word)", "bucket counts < 2^16", "record calls in half-open state are preceded by a permit (protocol use)"],
 }
@@ -148,7 +151,8 @@ PROPS["C15"] = {
     "thorough": [L2("ZZ_S15a_Async", 2, params={"readers": 2}, labels=["async:", "events:"], time_limit_s=3000, note="P=2")],
     "assumptions": ["IsDone is set one step before Done is closed; 'exactly from then on' is read up to that linearisation window"],
 }
-_c14 = [L2("ZZ_S14a_SharedPolicies", 1, params={"execs": 2}, labels=["concurrency:"], note="2 executions (sync/async) through Retry(Breaker(RateLimiter(Bulkhead))) + standalone API calls on the shared instances; P=1"),
+_c14 = [L2("ZZ_S07b_RetryTimeout", 1, labels=["concurrency:"], note="the execution handed to the user function is not modified by the timeout goroutine; P=1"),
+        L2("ZZ_S14a_SharedPolicies", 1, params={"execs": 2}, labels=["concurrency:"], note="2 executions (sync/async) through Retry(Breaker(RateLimiter(Bulkhead))) + standalone API calls on the shared instances; P=1"),
         L2("ZZ_S14b_HedgeInner", 1, labels=["concurrency:"], note="Hedge(Retry(fn)) and Timeout(Hedge(fn)); P=1"),
         L2("ZZ_S07a_Timeout", 2, labels=["concurrency:"], note="race/deadlock/panic verdicts of the timeout scenario"),
         L2("ZZ_S09a_Hedge", 1, params={"max_hedges": 1}, labels=["concurrency:"], note="race/deadlock/panic verdicts of the hedge scenario"),
